@@ -252,6 +252,71 @@ func facts(root string) {
 			return true
 		})
 	}
+	// --- merklize/*.go: every function that returns a MerklizeOption, with what its body does to the merklizer: the fields it
+	// assigns (in order, selector and the expression assigned), or "other" for any statement that is not such an assignment
+	mzOpts := [][]string{}
+	for _, p := range files {
+		if strings.HasSuffix(p, "_test.go") || strings.HasSuffix(p, "verif_hooks.go") {
+			continue
+		}
+		rel, _ := filepath.Rel(root, p)
+		f := parse(rel)
+		if f == nil {
+			continue
+		}
+		for _, d := range f.Decls {
+			fd, ok := d.(*ast.FuncDecl)
+			if !ok || fd.Recv != nil || fd.Type.Results == nil || len(fd.Type.Results.List) != 1 || fd.Body == nil {
+				continue
+			}
+			if id, ok := fd.Type.Results.List[0].Type.(*ast.Ident); !ok || id.Name != "MerklizeOption" {
+				continue
+			}
+			row := []string{fd.Name.Name}
+			for _, st := range fd.Body.List {
+				rs, ok := st.(*ast.ReturnStmt)
+				if !ok || len(rs.Results) != 1 {
+					row = append(row, "other")
+					continue
+				}
+				fl, ok := rs.Results[0].(*ast.FuncLit)
+				if !ok {
+					row = append(row, "other")
+					continue
+				}
+				for _, bs := range fl.Body.List {
+					as, ok := bs.(*ast.AssignStmt)
+					if !ok || len(as.Lhs) != 1 || len(as.Rhs) != 1 || as.Tok != token.ASSIGN {
+						row = append(row, "other")
+						continue
+					}
+					sel, ok1 := as.Lhs[0].(*ast.SelectorExpr)
+					rhs, ok2 := as.Rhs[0].(*ast.Ident)
+					if !ok1 || !ok2 {
+						row = append(row, "other")
+						continue
+					}
+					// the value assigned must be the option's own parameter
+					isParam := false
+					for _, prm := range fd.Type.Params.List {
+						for _, nm := range prm.Names {
+							if nm.Name == rhs.Name {
+								isParam = true
+							}
+						}
+					}
+					if isParam {
+						row = append(row, sel.Sel.Name)
+					} else {
+						row = append(row, sel.Sel.Name+":=?")
+					}
+				}
+			}
+			mzOpts = append(mzOpts, row)
+		}
+	}
+	sort.Slice(mzOpts, func(i, j int) bool { return mzOpts[i][0] < mzOpts[j][0] })
+	out["merklizeOptions"] = mzOpts
 	var dl []int
 	for d := range depths {
 		dl = append(dl, d)
